@@ -376,6 +376,8 @@ class Core(composites.Composite):
         self.childrenByLocator.pop(a1.spatialLocator)
         a1.p.dischargeTime = self.r.p.time
         self.remove(a1)
+        # out of the core the assembly is no longer cut by symmetry lines: cached areas are stale
+        a1.clearCache()
 
         if discharge and self._trackAssems:
             if self.parent.excore.get("sfp") is not None:
